@@ -258,7 +258,8 @@ def handleG5 : List String → Option (Except String String)
     .ok (match Impl.renameOps fs t n with
       | .ok l => opsStr l
       | .error .notFound => "err:notfound"
-      | .error .exists => "err:exists")
+      | .error .exists => "err:exists"
+      | .error .badName => "err:badname")
   | "ops" :: "recheck" :: mf :: payload => some do
     let mf ← strTok mf; let payload ← payload.mapM strTok
     .ok (opsStr (Impl.recheckOps mf payload))
